@@ -67,7 +67,7 @@ def labels(lst):
 def r21(chk, m):
     R = chk.rule('R2.1', 'expandDef: # followed by # emits exactly one #; # followed by digit n emits the tokens of params[n] '
                  '(no offset); every other token is copied once, in order', 5)
-    fn = m.module('plasTeX').functions.get('expandDef')
+    fn = m.func_or_none('plasTeX', 'expandDef')
     need(fn is not None, 'expandDef not found')
     chk.analysed(fn)
     H = lambda i: T('#%d' % i, CC_PARAMETER, '#')
